@@ -1,7 +1,21 @@
 import GuppyVerif.Lemmas.C13b
 import GuppyVerif.Lemmas.C13c
 import GuppyVerif.Lemmas.C13d
-/-! # C13 — Generic instantiation and monomorphization preserve meaning (partial) -/
+/-! # C13 — Generic instantiation and monomorphization preserve meaning (partial)
+
+Property theorems only (model: `Model/Instantiate.lean`, vocabulary: `Spec/C13.lean`, helpers:
+`Lemmas/C13{,b,c,d}.lean`).  All theorems quantify over every signature / instantiation / parameter list
+(structural induction over the nested type family, no size bound).
+
+Statement of the design: `(f.instantiatePartial a).instantiate b = f.instantiate (fill a b)` for closed
+`a`-entries, and the same for two partial steps.  What "closed" has to mean for this to be true of the code:
+`argClosed` = no bound variable **and no parametrized (rank-2) function type** anywhere in the argument; and the
+signature itself must be closed (`sigScoped`: body below the number of parameters, type of parameter `i` below
+`i`).  Under these hypotheses the equality is *exact* (`Option Ty`: parameter lists, `preserve` flags, comptime
+args and the error outcome of the second step), for an arbitrary second step.  Each hypothesis is necessary:
+see the machine-checked counterexamples in namespace `Ex` below (replayed on the real code from
+`corpus/c13/witnesses.json`).  The theorems are about the code after fix a3b7e76 (before it both composition
+laws were false: witnesses `fixed-*` in the corpus).  Unmodelled: runtime equality, HUGR validity. -/
 namespace GuppyVerif.Instantiate
 open GuppyVerif
 
